@@ -16,7 +16,11 @@ struct PolX {
 };
 using HDI = eventpp::HeterEventDispatcher<int, eventpp::HeterTuple<void (VArg), void (WArg)>, PolI>;
 using HDX = eventpp::HeterEventDispatcher<int, eventpp::HeterTuple<void (VArg), void (WArg)>, PolX>;
-void use(HDI & d, HDX & x, VArg a, WArg w) {
+struct CbV { void operator()(VArg) const; };      // user callbacks: one per prototype
+struct CbW { void operator()(WArg) const; };
+void use(HDI & d, HDX & x, VArg a, WArg w, CbV & cv, CbW & cw, HDX::Handle & h) {
+	x.appendListener(1, cv); x.appendListener(2, cw); x.prependListener(1, cv); x.insertListener(1, cv, h);
+	x.removeListener(1, h); x.hasAnyListener(1);
 	d.dispatch(a); d.dispatch(VArg()); d.dispatch(w); d.dispatch(WArg());
 	x.dispatch(1, a); x.dispatch(2, WArg());
 }
